@@ -25,8 +25,10 @@ VERIF = os.path.dirname(os.path.dirname(os.path.abspath(__file__)))
 REPO = os.environ.get("VERIF_REPO", "/repo")
 SPECS = os.path.join(VERIF, "specs")
 HARNESS = os.path.join(VERIF, "harness")
-EVID = os.path.join(VERIF, "evidence")
-REPLAYS = os.path.join(VERIF, "replays")
+# VERIF_OUT redirects evidence and replays (used when trying the checks on seeded changes, so that the
+# committed evidence of the unchanged tree is not overwritten)
+EVID = os.path.join(os.environ.get("VERIF_OUT", VERIF), "evidence")
+REPLAYS = os.path.join(os.environ.get("VERIF_OUT", VERIF), "replays")
 KNOWN = os.path.join(VERIF, "known-findings.txt")
 TLA_CP = "/opt/veriftools/tla/tla2tools.jar:/opt/veriftools/tla/CommunityModules-deps.jar"
 NCPU = os.cpu_count() or 4
